@@ -297,6 +297,7 @@ int main(void)
 			/* start of a script: forget all objects */
 			for (int i = 0; i < nobj; i++) { kind_fini(objs[i].kind, objs[i].data); free(objs[i].data); }
 			nobj = 0;
+			fail_pending = 0;
 			result("ok", 0, 0);
 		}
 		else if (!strcmp(op, "new") && drv_nw == 3) {
@@ -361,10 +362,14 @@ int main(void)
 			/* the empty name (x:-) is the "assign from sibling" form: text sources carry no sibling */
 			if (!ob || !name) { puts("bad-op"); free(name); continue; }
 			if (!strcmp(drv_w[4], "null")) {
+				fail_arm();
 				ret = ob->_obj._vptr->set_property(&ob->_obj, name, 0);
+				fail_disarm();
 			}
 			else if (!strcmp(drv_w[4], "nullstr")) {
+				fail_arm();
 				ret = mpt_object_set_string(&ob->_obj, name, 0, 0);
+				fail_disarm();
 			}
 			else {
 				if (drv_parse_data(drv_w[4], &dat, &dlen, &isnull) || isnull || memchr(dat, 0, dlen)) {
